@@ -165,6 +165,9 @@ def check(run):
     run.check(okt, 'R5', 'absolute-form-required', H + '::forward_request', fr.loc(), 'a request whose target does not start with http:// is not rejected', 'throws unless the target starts with http://')
     catches = [n for n in orr.all_nodes() if n['k'] == 'catch']
     okc = bool(orr.d.get('fntry')) and bool(catches) and all(any(x['k'] == 'call' and x.get('usr') == cc.usr for x in walk(c)) for c in catches) and any('runtime_error' in orr.types[c['var']['t']] for c in catches if c.get('var'))
+    nthr = engines.throws_are_caught(run, orr, [fr, fx.fn1('sim::parse_request')])
+    if nthr < 2:
+        run.broke('fewer than 2 throw expressions found in forward_request / parse_request')
     run.check(okc, 'R4', 'parse-error-closes', H + '::on_read_request', orr.loc(), 'parse / rewrite failures are not caught around the whole handler and turned into close_connection()', 'function-try-block catches runtime_error and closes')
 
     run.clause('(5) every teardown path re-arms accept unless stopped; stop() closes the listener')
